@@ -135,6 +135,8 @@ class Check(object):
 
     # -- minimisation ----------------------------------------------------------
     def _same_failure(self, res, vclass):
+        if vclass == "stall":  # decided by wall time: the candidate stalls again
+            return res.get("status") == "timeout"
         return res.get("status") == "violation" and res.get("violation", {}).get("class") == vclass
 
     def minimise(self, res):
@@ -186,15 +188,18 @@ class Check(object):
         extra = res.get("replay_extra")
         spec = self.trace_spec(res["config"], trace, extra=extra)
         final = self.pool.map([spec], chunk=1)[0]
-        if final.get("status") != "violation":
+        vclass0 = res["violation"]["class"]
+        if not self._same_failure(final, vclass0) and final.get("status") != "violation":
             # minimised trace does not replay: fall back to the original
             spec = self.trace_spec(res["config"], res["trace"], extra=extra)
             final = self.pool.map([spec], chunk=1)[0]
             trace = res["trace"]
-            if final.get("status") != "violation":
+            if not self._same_failure(final, vclass0) and final.get("status") != "violation":
                 raise HarnessError(
                     "failure of run %d does not replay (class %s)" % (idx, res["violation"].get("class"))
                 )
+        if final.get("status") == "timeout":  # stall class: keep the recorded verdict
+            final = {"status": "violation", "violation": res["violation"]}
         rev, dirty = repo_rev()
         sig = final["violation"].get("signature", final["violation"]["class"])
         doc = {
